@@ -109,7 +109,7 @@ PROPERTIES = {
         assumptions=["termination of _format_variable_name's renaming loop is not proved"],
     ),
     "C15": dict(
-        modules=["contracts.c15_plugins"],
+        modules=["contracts.c15_plugins", "contracts.c02_documents"],
         bounded=[_bounded.lazy("contracts.c15_plugins", "bounded_hook_order"), _bounded.lazy("contracts.e2e_plugins", "bounded_plugins")],
         explanation="plugin manager fold, hook forwarding, identity of the base hooks, NoReimports; plugged packages by an end-to-end bounded stand-in",
         assumptions=["equivalence of whole plugged and unplugged packages on scripted responses is sampled, not proved"],
